@@ -15,6 +15,7 @@ pub mod c10;
 pub mod c11;
 pub mod c12;
 pub mod c13;
+pub mod c17;
 #[cfg(feature = "sched")]
 pub mod c14;
 #[cfg(feature = "sched")]
@@ -37,6 +38,7 @@ pub fn run(id: &str, o: &Opts, stats: &mut Stats) -> Option<usize> {
         "C11" => c11::run(o, stats),
         "C12" => c12::run(o, stats),
         "C13" => c13::run(o, stats),
+        "C17" => c17::run(o, stats),
         #[cfg(feature = "sched")]
         "C14" => c14::run(o, stats),
         #[cfg(feature = "sched")]
